@@ -625,6 +625,11 @@ class Log():
                 # Guard against multiple responses due to re-sending
                 if not self.toc:
                     logger.debug('Logging reset, continue with TOC download')
+                    # The Crazyflie has dropped all its log blocks: configurations of an earlier
+                    # connection are not added or started any more (they can be added again)
+                    for block in self.log_blocks:
+                        block.started = False
+                        block.added = False
                     self.log_blocks = []
 
                     self.toc = Toc()
